@@ -23,7 +23,7 @@ from typing import Any
 from optuna.storages.journal import JournalFileBackend, JournalFileOpenLock, JournalFileSymlinkLock
 
 from verif import core, sched, sysfi
-from verif.props import c07_lock
+from verif.props import c07_file_gen, c07_lock
 
 RULE = (
     "(a) byte strings built from 0-8 JSON records, optional torn tail / garbage line / missing final newline, "
@@ -502,16 +502,84 @@ def search(chk: core.Check) -> None:
     explore(chk, 500, tag="-search")
 
 
+def ctor_race_probe(chk: core.Check) -> None:
+    """The constructor of JournalFileBackend tests for the file and creates it WITHOUT the lock.  Worker B is preempted
+    between its existence test (file absent) and its creation of the file; meanwhile worker A constructs its backend and
+    gets two appends acknowledged; B resumes, later appends a record itself.  The log is append-only: a fresh reader must
+    see A's two records then B's, and A's cached offsets must continue with B's record.  (The preemption is emulated by
+    wrapping os.path.exists for the duration of B's constructor; a constructor that never asks is simply run after A.)"""
+    from optuna.storages.journal import JournalFileBackend
+
+    path = os.path.join(chk.tmp, "ctor_race_%d.log" % os.getpid())
+    orig_exists = os.path.exists
+    st: dict[str, Any] = {"armed": True}
+    recs = [{"op_code": 0, "worker_id": "A", "study_name": "s", "directions": [1]}, {"op_code": 4, "worker_id": "A", "study_id": 0, "datetime_start": "x"}]
+
+    def a_runs() -> None:
+        a = JournalFileBackend(path)
+        a.append_logs([recs[0]])
+        a.append_logs([recs[1]])
+        st["a"] = a
+        st["a_saw"] = a.read_logs(0)
+
+    def exists(p_: Any) -> bool:
+        r_ = orig_exists(p_)
+        try:
+            mine = os.fspath(p_) == path
+        except TypeError:
+            mine = False
+        if st["armed"] and mine:
+            st["armed"] = False
+            st["b_saw_file"] = r_
+            a_runs()
+        return r_
+
+    os.path.exists = exists  # type: ignore[assignment]
+    try:
+        b = JournalFileBackend(path)
+    finally:
+        os.path.exists = orig_exists  # type: ignore[assignment]
+    if "a" not in st:
+        a_runs()
+    rec_b = {"op_code": 4, "worker_id": "B", "study_id": 0, "datetime_start": "y"}
+    problems: list[str] = []
+    try:
+        fresh1 = JournalFileBackend(path).read_logs(0)
+        b.append_logs([rec_b])
+        fresh2 = JournalFileBackend(path).read_logs(0)
+        a_tail = st["a"].read_logs(2)
+    except Exception as e:  # noqa: BLE001
+        problems.append("a read or append raised %s: %s" % (type(e).__name__, str(e)[:100]))
+        fresh1 = fresh2 = a_tail = None
+    if not problems:
+        if fresh1 != recs:
+            problems.append("after B's constructor a fresh reader sees %d record(s) %s, A's two acknowledged records are %s" % (len(fresh1), json.dumps(fresh1)[:160], json.dumps(recs)[:160]))
+        elif fresh2 != recs + [rec_b]:
+            problems.append("after B's append a fresh reader sees %s" % json.dumps(fresh2)[:200])
+        elif a_tail != [rec_b]:
+            problems.append("worker A continues from its cached offset with %s instead of B's record" % json.dumps(a_tail)[:200])
+    chk.case({"part": "ctor-race", "preempted": not st["armed"]}, nontrivial=not st["armed"])
+    chk.count("ctor-race")
+    if problems:
+        chk.violation({"kind": "constructor-race", "lock": "none"}, {"part": "ctor-race", "problems": problems},
+                      "JournalFileBackend constructor preempted between its existence test and the creation of the file while another worker "
+                      "created the journal and had two appends acknowledged: " + problems[0])
+
+
 def main(chk: core.Check) -> int:
     chk.rule = RULE
+    c07_file_gen.regenerate(chk)  # T-file: Generated/JournalFileMethods.lean from journal/_file.py, before the theorems are re-checked against it
     if not getattr(chk, "no_prove", False):
-        chk.prove(["OptunaVerif.Props.C07", "OptunaVerif.Props.C07Lock"])
+        chk.prove(["OptunaVerif.Props.C07", "OptunaVerif.Props.C07Lock", c07_file_gen.MODULE])
+        c07_file_gen.explain_proof_failure(chk)
     quick = chk.tier == "quick"
     try:
         core.ensure_driver()
+        c07_file_gen.differential(chk, 400 if quick else 6000)  # interpreter of the generated data vs the hand models, side by side
         pure_differential(chk, 3000 if quick else 40000)
     except core.DriverBroken as e:
         chk.broke("correspondence", {"driver": str(e)[:600]})
+    ctor_race_probe(chk)
     explore(chk, 600 if quick else 8000)
     try:
         c07_lock.correspond(chk, chk.tier)  # the two lock classes call by call against Model/FileLock.lean
